@@ -84,6 +84,9 @@ type World struct {
 	Replicas []*Replica
 	now      time.Time
 
+	Version config.ConsensusVerson // consensus version every node of the world runs (see UpgradeTo)
+	FatTxs  bool                   // GenTx gives two of three payments a payload of 30-120 KB (upgrade 11 on)
+
 	Contracts []common.Address // deployed contract addresses seen in receipts
 	Invited   []common.Address // fresh addresses that were sent an invitation
 }
@@ -191,12 +194,11 @@ func GenParams(t *rapid.T, minActors, maxActors int) Params {
 	return p
 }
 
-func consensusConf(p Params) *config.ConsensusConf {
+func consensusConf(p Params, version config.ConsensusVerson) *config.ConsensusConf {
 	var c config.ConsensusConf
-	if p.Profile == "v9" {
-		c = *config.GetDefaultConsensusConfig()
-	} else {
-		c = *blockchain.GetDefaultConsensusConfig()
+	c = *config.GetDefaultConsensusConfig() // version 9
+	for v := config.ConsensusV10; v <= version; v++ {
+		config.ApplyConsensusVersion(v, &c) // (blockchain.GetDefaultConsensusConfig is exactly 9 + 10 + 11 + 12)
 	}
 	c.Automine = true
 	c.StatusSwitchRange = p.SwitchRng
@@ -220,7 +222,7 @@ func (w *World) Config() *config.Config {
 	}
 	return &config.Config{
 		Network:   0x99,
-		Consensus: consensusConf(p),
+		Consensus: consensusConf(p, w.Version),
 		GenesisConf: &config.GenesisConf{
 			Alloc:             alloc,
 			GodAddress:        w.God.Addr,
@@ -239,10 +241,27 @@ func (w *World) Config() *config.Config {
 	}
 }
 
+// UpgradeTo activates the next consensus version on every node of the world at a block boundary, the way the node does
+// it at an upgrade block (Upgrader.UpgradeConfigTo): the consensus configuration object every running node holds is
+// transformed IN PLACE, while nodes started (or restarted) afterwards build theirs afresh for the new version. The
+// voting that precedes an activation is not simulated.
+func (w *World) UpgradeTo(v config.ConsensusVerson) {
+	for _, r := range w.Replicas {
+		for x := r.Cfg.Consensus.Version + 1; x <= v; x++ {
+			config.ApplyConsensusVersion(x, r.Cfg.Consensus)
+		}
+	}
+	w.Version = v
+	validation.SetAppConfig(w.Config())
+}
+
 // NewWorld resets the process-global state listed in DESIGN.md §1.3 and builds
 // the key ring. Replicas are added with AddReplica.
 func NewWorld(p Params) *World {
-	w := &World{P: p, ByAddr: map[common.Address]*Actor{}}
+	w := &World{P: p, ByAddr: map[common.Address]*Actor{}, Version: config.ConsensusV12}
+	if p.Profile == "v9" {
+		w.Version = config.ConsensusV9
+	}
 	for i := 0; i < p.NActors; i++ {
 		k := DeriveKey(p.KeySeed, i)
 		a := &Actor{Idx: i, Key: k, Addr: crypto.PubkeyToAddress(k.PublicKey), Pub: crypto.FromECDSAPub(&k.PublicKey)}
